@@ -54,8 +54,9 @@ def uniform_batch(rng, variant):
 def ramp(signal, n, distinct, base, col, nodump=True):
     return {"gen": "ramp", "n": n, "distinct": distinct, "base": base, "col": col, "nodump": nodump}
 
-RAMP_COLS = {"traces": ["name", "attr", "event", "tracestate"], "logs": ["body", "sevtext", "attr", "attrkey"],
-             "metrics": ["name", "attr", "unit"]}
+# "all": every dictionary column of the record grows in the same batch (several schema updates at once)
+RAMP_COLS = {"traces": ["name", "attr", "event", "tracestate", "all"], "logs": ["body", "sevtext", "attr", "attrkey", "all"],
+             "metrics": ["name", "attr", "unit", "all"]}
 
 def ramp_history(rng, signal, regime, cap, nb):
     """Cardinality ramp for one column. regime 'overflow': every batch brings new values (low reuse);
@@ -77,6 +78,25 @@ def ramp_history(rng, signal, regime, cap, nb):
         for k in range(nb):
             out.append(ramp(signal, per + 10, per, k * per, col))
     return out
+
+def multi_column_bursts(plan, rng, quick, nodecode):
+    """Many dictionary columns of one record cross an index-width boundary (255, or the configured limit) in the same
+    batch - first on the stream and after a warm-up - in the widen, overflow and reset regimes."""
+    for signal in ("traces", "logs", "metrics"):
+        for d, thr in ([("", None), ("8", None), ("8", 0.5)] if quick else [("", None), ("8", None), ("8", 0.5), ("8", 0.0), ("16", None), ("none", None)]):
+            for warm in (False, True):
+                o = {"dict": d} if d else {}
+                if thr is not None:
+                    o["thr"] = thr
+                bs = []
+                if warm:
+                    bs += [ramp(signal, 200, 3, 0, "all", nodump=False) for _ in range(3)]
+                bs += [ramp(signal, 300, 300, 1000, "all", nodump=False), ramp(signal, 20, 5, 0, "all", nodump=False)]
+                st = {"id": "burst-all/%s/%s/%s/%s" % (signal, d or "default", thr, warm), "signal": signal, "opts": o, "batches": bs,
+                      "props": [], "mode": 0, "nowire": True}
+                if nodecode:
+                    st["nodecode"] = True
+                plan.append(st)
 
 def plan_c08(pid, rng, quick):
     plan = []
@@ -129,6 +149,7 @@ def plan_c08(pid, rng, quick):
             if "ignored" in with_:
                 plan.append({"id": "parents/%s/%s/%d" % (signal, with_, n_), "signal": signal, "opts": {},
                              "batches": [big, otap.rand_batch(rng, rich=1)], "props": [], "mode": 2, "nowire": True, "nodecode": True})
+    multi_column_bursts(plan, rng, quick, nodecode=True)
     # dictionary regimes (valid input under every dictionary option)
     for i in range(24 if quick else 900):
         signal = rng.choice(["traces", "logs", "metrics"])
@@ -274,6 +295,10 @@ def plan_c04(pid, rng, quick):
         bs.append(otap.rand_batch(rng, rich=2))
         plan.append({"id": "opt-ramp/%s/%s/%d" % (signal, d, i), "signal": signal, "opts": o, "batches": bs,
                      "props": ["C04"], "mode": 0, "nowire": True})
+    n0 = len(plan)
+    multi_column_bursts(plan, rng, quick, nodecode=False)
+    for st in plan[n0:]:
+        st["props"] = ["C04"]
     return plan
 
 RELABEL = {"traces": ["SPANS", "SPAN_ATTRS", "SPAN_EVENTS", "RESOURCE_ATTRS", "LOGS", "UNKNOWN"],
